@@ -19,7 +19,7 @@ LEVEL_TEXT = ("Held on every (filter, k, t, start, message, table, mode) case of
               "k = 1..8 x run limit x motif length is enumerated exhaustively; strands are sampled.")
 LEVEL_NOTE = ("Whole-sequence checks are demanded only for window-decidable configurations, as the property states. User filters "
               "follow docs/source/customization.rst. The independent predicate is C12's rational oracle.")
-PLAN = {"quick": dict(shards=16, budget=100), "thorough": dict(shards=32, budget=400)}
+PLAN = {"quick": dict(shards=16, budget=100), "thorough": dict(shards=16, budget=400)}
 EXHAUSTIVE = ["LocalBioFilter constructor grid k=1..8 x run in {None,0..k+2} x motif length in {none,1..k+2}"]
 RULE = ("f -> find_vertices(k, f) -> connect_coding_graph(k, mask, t) -> encode(m, G, v, mode, table) with f in {LocalBioFilter "
         "over run limit x GC range (degenerate, asymmetric) x motif sets; user filters as documented: forbidden k-mer sets, the "
